@@ -7,10 +7,10 @@ ALL = ["C%02d" % i for i in range(1, 21)]
 CHECKS = {
  "C07": dict(
     category="model_checking",
-    text="Partition.tla (RFC 5052 s9.1 verbatim) is model-checked for its theorems on the grid, then every flute result on the complete grid (4-tuple, every block length, receiver-side partition rebuilt from a RaptorQ/Raptor EXT_FTI) is validated record by record by TLC against the specification; 2^48-range triples are judged by Apalache with the same operators. Exhaustive on the stated grid, sampled beyond it.",
+    text="Partition.tla (RFC 5052 s9.1 verbatim) is model-checked for its theorems on the grid, then every flute result on the complete grid (4-tuple, every block length, receiver-side partition rebuilt from a RaptorQ/Raptor EXT_FTI) is validated record by record by TLC against the specification; 2^48-range triples are judged by Apalache with the same operators. Exhaustive on the stated grid, sampled beyond it. The spec-level theorem itself (0 <= I < N, I*A_large + (N-I)*A_small = T, A_large <= B, A_large - A_small in {0,1}) is proved for ALL L, E, B >= 1 with TLAPS for the very operators of PartitionCore.tla (spec/proofs/PartitionProof.tla, 199 obligations, re-checked by every run).",
     design_ref="DESIGN.md 4.1, 7 (C07)",
     note="Trusts TLC/Apalache arithmetic and the hook wrappers flute::verif::{block_partitioning, block_length} (one-line forwards to the private functions).",
-    technique="TLA+ pure-function spec; TLC exhaustive grid + trace validation of flute outputs; Apalache for 48-bit values"),
+    technique="TLA+ pure-function spec; TLAPS proof of its theorems; TLC exhaustive grid + trace validation of flute outputs; Apalache for 48-bit values"),
  "C08": dict(
     category="model_checking",
     text='Every packet the real Sender emits for TLC-enumerated behaviours (object shape x FEC scheme x parity x interleave x transfer count x carousel x publish mode x removal at every packet index, in the first and in a later carousel cycle) is decoded independently and judged by the TLA+ monitor: each (SBN, ESI) once per transfer, ESIs increasing per block, inside the Partition.tla-derived structure, source payload = RFC slice at the RFC offset, all source symbols present when a transfer ends, content rebuilt from source symbols alone, B only on the lone empty-object packet / single post-removal packet / last packet of the final transfer, A only on the close-session packet.',
@@ -57,42 +57,42 @@ CHECKS = {
     text="Configuration grid enumerated by TLC (object shape x 5 FEC schemes x parity x cenc x in-band/FDT-only FTI and CENC x publish mode x interleave x multiplex, three concurrent objects over two priority queues, transfer counts 1-2, receive-once on/off, MD5 on/off): every packet of the real session pushed in order into a real MultiReceiver; the monitor requires for every object the sender accepted exactly one (receive-once) / one per transfer exact complete writer, no failure, no writer for anything else, and metadata (location, type, lengths, MD5, groups, ETag, cache directive, cenc, OTI) equal to what the sender was given. Sessions whose object has 2049 - 6200 source blocks (more than the receiver pre-allocates) are included. The sender-side monitor additionally checks that the in-band FTI carries exactly the object's parameters and that whatever add_object accepts is transmittable: transfer lengths around 2^32 / 2^40 / 2^48 against the width of EXT_FTI, block sizes around the limits of the codecs (Raptor 8192, RaptorQ 56403, RS(2^8) 256 symbols), no panic / hang of the sender.",
     design_ref="DESIGN.md 4.4, 4.6, 5.3, 7 (C01)",
     note="Trusts TLC, the harness's scripted ObjectWriter/Builder and digests, expat for the FDT XML of the recorded sessions, Partition.tla for the block structure. The decode rule is the one stated by the property (RS: any k distinct symbols; others: all k source symbols), not flute's. Quick tier samples (seeded) the TLC-enumerated schedules; thorough tier replays far more or all of them.",
-    technique="TLA+ property monitor (ReceiverProps.tla) evaluated by TLC on traces recorded from the real MultiReceiver fed TLC-enumerated fault schedules (Gen_Recv.tla) over sessions recorded from the real Sender; the mechanism specification Receiver.tla is model-checked composed with the monitor for every push sequence within bounds (MC_Receiver.tla, with broken variants as vacuity guard) and bound to the code by trace validation (Trace_Receiver.tla: callbacks and container snapshot of every call)"),
+    technique="TLA+ property monitor (ReceiverProps.tla) evaluated by TLC on traces recorded from the real MultiReceiver fed TLC-enumerated fault schedules (Gen_Recv.tla) over sessions recorded from the real Sender; the mechanism specification Receiver.tla is model-checked composed with the monitor for every push sequence within bounds (MC_Receiver.tla, with broken variants as vacuity guard; for C01 / C02 / C16 also System.tla, the end-to-end composition Sender.tla -> channel -> Receiver.tla) and bound to the code by trace validation (Trace_Receiver.tla: callbacks and container snapshot of every call)"),
 
  "C02": dict(
     category="model_checking",
     text='Every subset (loss) of every recorded session of <= 13 packets, every multiset with multiplicity <= 2 of sessions of <= 8 packets, subsets of carousel sessions of <= 16 packets (order preserved) are enumerated by TLC over the real packet lists; the monitor computes Recoverable(o) in TLA+ from the delivered (SBN, ESI) sets and requires an exact complete delivery whenever it holds.',
     design_ref="DESIGN.md 4.4, 4.6, 5.3, 7 (C02)",
     note="Trusts TLC, the harness's scripted ObjectWriter/Builder and digests, expat for the FDT XML of the recorded sessions, Partition.tla for the block structure. The decode rule is the one stated by the property (RS: any k distinct symbols; others: all k source symbols), not flute's. Quick tier samples (seeded) the TLC-enumerated schedules; thorough tier replays far more or all of them.",
-    technique="TLA+ property monitor (ReceiverProps.tla) evaluated by TLC on traces recorded from the real MultiReceiver fed TLC-enumerated fault schedules (Gen_Recv.tla) over sessions recorded from the real Sender; the mechanism specification Receiver.tla is model-checked composed with the monitor for every push sequence within bounds (MC_Receiver.tla, with broken variants as vacuity guard) and bound to the code by trace validation (Trace_Receiver.tla: callbacks and container snapshot of every call)"),
+    technique="TLA+ property monitor (ReceiverProps.tla) evaluated by TLC on traces recorded from the real MultiReceiver fed TLC-enumerated fault schedules (Gen_Recv.tla) over sessions recorded from the real Sender; the mechanism specification Receiver.tla is model-checked composed with the monitor for every push sequence within bounds (MC_Receiver.tla, with broken variants as vacuity guard; for C01 / C02 / C16 also System.tla, the end-to-end composition Sender.tla -> channel -> Receiver.tla) and bound to the code by trace validation (Trace_Receiver.tla: callbacks and container snapshot of every call)"),
 
  "C03": dict(
     category="model_checking",
     text="All permutations x subsets of recorded sessions of <= 6 packets, duplicates, mixtures of two transfers, and every object packet of small sessions with payload first/middle/last byte flipped, truncated by 1-3 bytes or extended, with MD5 checking on and off: complete is only ever reported with the sender's exact bytes (always for unaltered packets; with altered packets whenever MD5 is announced and checked), never complete and failed on one writer.",
     design_ref="DESIGN.md 4.4, 4.6, 5.3, 7 (C03)",
     note="Trusts TLC, the harness's scripted ObjectWriter/Builder and digests, expat for the FDT XML of the recorded sessions, Partition.tla for the block structure. The decode rule is the one stated by the property (RS: any k distinct symbols; others: all k source symbols), not flute's. Quick tier samples (seeded) the TLC-enumerated schedules; thorough tier replays far more or all of them.",
-    technique="TLA+ property monitor (ReceiverProps.tla) evaluated by TLC on traces recorded from the real MultiReceiver fed TLC-enumerated fault schedules (Gen_Recv.tla) over sessions recorded from the real Sender; the mechanism specification Receiver.tla is model-checked composed with the monitor for every push sequence within bounds (MC_Receiver.tla, with broken variants as vacuity guard) and bound to the code by trace validation (Trace_Receiver.tla: callbacks and container snapshot of every call)"),
+    technique="TLA+ property monitor (ReceiverProps.tla) evaluated by TLC on traces recorded from the real MultiReceiver fed TLC-enumerated fault schedules (Gen_Recv.tla) over sessions recorded from the real Sender; the mechanism specification Receiver.tla is model-checked composed with the monitor for every push sequence within bounds (MC_Receiver.tla, with broken variants as vacuity guard; for C01 / C02 / C16 also System.tla, the end-to-end composition Sender.tla -> channel -> Receiver.tla) and bound to the code by trace validation (Trace_Receiver.tla: callbacks and container snapshot of every call)"),
 
  "C09": dict(
     category="model_checking",
     text='Writer scripts enumerated by TLC (builder answering store / already-received / abort, open failing, write failing at call 1..3, packets in order up to any index or object-before-FDT, receiver dropped at any point) plus the lossy, corrupted and late-join histories: one typestate automaton per writer id (open first and once, writes only between a successful open and the terminal, writes form a prefix of the object, at most one terminal, nothing after it, complete only with exactly the announced content, every opened writer terminated by the time of drop).',
     design_ref="DESIGN.md 4.4, 4.6, 5.3, 7 (C09)",
     note="Trusts TLC, the harness's scripted ObjectWriter/Builder and digests, expat for the FDT XML of the recorded sessions, Partition.tla for the block structure. The decode rule is the one stated by the property (RS: any k distinct symbols; others: all k source symbols), not flute's. Quick tier samples (seeded) the TLC-enumerated schedules; thorough tier replays far more or all of them.",
-    technique="TLA+ property monitor (ReceiverProps.tla) evaluated by TLC on traces recorded from the real MultiReceiver fed TLC-enumerated fault schedules (Gen_Recv.tla) over sessions recorded from the real Sender; the mechanism specification Receiver.tla is model-checked composed with the monitor for every push sequence within bounds (MC_Receiver.tla, with broken variants as vacuity guard) and bound to the code by trace validation (Trace_Receiver.tla: callbacks and container snapshot of every call)"),
+    technique="TLA+ property monitor (ReceiverProps.tla) evaluated by TLC on traces recorded from the real MultiReceiver fed TLC-enumerated fault schedules (Gen_Recv.tla) over sessions recorded from the real Sender; the mechanism specification Receiver.tla is model-checked composed with the monitor for every push sequence within bounds (MC_Receiver.tla, with broken variants as vacuity guard; for C01 / C02 / C16 also System.tla, the end-to-end composition Sender.tla -> channel -> Receiver.tla) and bound to the code by trace validation (Trace_Receiver.tla: callbacks and container snapshot of every call)"),
 
  "C16": dict(
     category="model_checking",
     text='Every join offset inside the first carousel cycle of recorded carousel sessions (5 schemes, in-band / FDT-only OTI and CENC, 1-2 objects, delay / interval carousel, both FDT modes): the receiver is fed the suffix up to the end of the second full cycle after the join and must have delivered every carouselled object exactly.',
     design_ref="DESIGN.md 4.4, 4.6, 5.3, 7 (C16)",
     note="Trusts TLC, the harness's scripted ObjectWriter/Builder and digests, expat for the FDT XML of the recorded sessions, Partition.tla for the block structure. The decode rule is the one stated by the property (RS: any k distinct symbols; others: all k source symbols), not flute's. Quick tier samples (seeded) the TLC-enumerated schedules; thorough tier replays far more or all of them.",
-    technique="TLA+ property monitor (ReceiverProps.tla) evaluated by TLC on traces recorded from the real MultiReceiver fed TLC-enumerated fault schedules (Gen_Recv.tla) over sessions recorded from the real Sender; the mechanism specification Receiver.tla is model-checked composed with the monitor for every push sequence within bounds (MC_Receiver.tla, with broken variants as vacuity guard) and bound to the code by trace validation (Trace_Receiver.tla: callbacks and container snapshot of every call)"),
+    technique="TLA+ property monitor (ReceiverProps.tla) evaluated by TLC on traces recorded from the real MultiReceiver fed TLC-enumerated fault schedules (Gen_Recv.tla) over sessions recorded from the real Sender; the mechanism specification Receiver.tla is model-checked composed with the monitor for every push sequence within bounds (MC_Receiver.tla, with broken variants as vacuity guard; for C01 / C02 / C16 also System.tla, the end-to-end composition Sender.tla -> channel -> Receiver.tla) and bound to the code by trace validation (Trace_Receiver.tla: callbacks and container snapshot of every call)"),
 
  "C19": dict(
     category="model_checking",
     text='Receiver clock skews from -30 years to +30 years x transit-delay classes around the FDT duration (0, D-3, D+3, 2D; the +-2 s band excluded) x D in {10 s, 30 s, 1 h} x SCT present/absent x expiry check on/off x object before/after FDT x cleanup in between, all combinations: delivery starts only through an instance unexpired on the estimated sender clock, the outcome equals the one computed on the sender clock, nothing is counted as failed for an expired announcement.',
     design_ref="DESIGN.md 4.4, 4.6, 5.3, 7 (C19)",
     note="Trusts TLC, the harness's scripted ObjectWriter/Builder and digests, expat for the FDT XML of the recorded sessions, Partition.tla for the block structure. The decode rule is the one stated by the property (RS: any k distinct symbols; others: all k source symbols), not flute's. Quick tier samples (seeded) the TLC-enumerated schedules; thorough tier replays far more or all of them.",
-    technique="TLA+ property monitor (ReceiverProps.tla) evaluated by TLC on traces recorded from the real MultiReceiver fed TLC-enumerated fault schedules (Gen_Recv.tla) over sessions recorded from the real Sender; the mechanism specification Receiver.tla is model-checked composed with the monitor for every push sequence within bounds (MC_Receiver.tla, with broken variants as vacuity guard) and bound to the code by trace validation (Trace_Receiver.tla: callbacks and container snapshot of every call)"),
+    technique="TLA+ property monitor (ReceiverProps.tla) evaluated by TLC on traces recorded from the real MultiReceiver fed TLC-enumerated fault schedules (Gen_Recv.tla) over sessions recorded from the real Sender; the mechanism specification Receiver.tla is model-checked composed with the monitor for every push sequence within bounds (MC_Receiver.tla, with broken variants as vacuity guard; for C01 / C02 / C16 also System.tla, the end-to-end composition Sender.tla -> channel -> Receiver.tla) and bound to the code by trace validation (Trace_Receiver.tla: callbacks and container snapshot of every call)"),
  "C15": dict(
     category="model_checking",
     text="ToiAlloc.tla (mechanism: next / reserved / handles / objects, allocate with skip of 0 and of reserved values, release) is model-checked for C15_Inv (next allocation free and non-zero, held values pairwise distinct and exactly the reserved set) from initial values {0, 1, M-2, M-1}; every operation history up to the depth bound that TLC prints is replayed on the real Sender for every TOI width with the initial value next to the wrap point, handle drops partly on another thread, plus the random default initial value and a full cycle of the 16-bit space with the maximum TOI live; Mon_Toi.tla judges every allocation (non-zero, within width, not reserved / attached to a live object, equal to the TOI of the object's packets) and SenderProps.tla the packets and FDT entries.",
